@@ -1096,7 +1096,7 @@ pub fn property() -> Property {
             "template visibility values are not judged, only that the query answers".into(),
         ],
         parts: vec![
-            Part { name: "random", run, quick: Budget::Random { cases: 100_000, bytes: 90 }, thorough: Budget::Random { cases: 1_000_000, bytes: 90 }, min_nontrivial_pct: 15 },
+            Part { name: "random", run, quick: Budget::Random { cases: 3_000_000, bytes: 90 }, thorough: Budget::Random { cases: 15_000_000, bytes: 90 }, min_nontrivial_pct: 15 },
             // every history of length ≤ 4 (thorough: ≤ 5) over the 45-operation alphabet, from the fresh manager
             Part { name: "all-fresh", run, quick: Budget::Exhaustive { param: 4 }, thorough: Budget::Exhaustive { param: 5 }, min_nontrivial_pct: 0 },
             // every history of effective operations: length ≤ 5 (thorough: ≤ 6) from the fresh manager,
